@@ -42,7 +42,7 @@ DEFAULTS: Dict[str, Any] = dict(
     max_depth=3, ops_per_step=(2, 5), big_corr=False, autograd=False, bwd_annotation=True, step_gap=(0, 1, 1, 7),
     pre_ops=1, post_ops=1, first_step=None, file_order="time", p_plain_rt=0.08, kernel_durs=(0, 1, 5, 20, 60),
     launch_lat=(0, 0, 1, 3, 10), queue_lat=(0, 0, 1, 5, 40), device_pid=0, repeat_names=False, annotation_nest=False,
-    p_leaf_children=(0, 3), ops_pool=None, p_unlaunched=0.0, sync_straddle=False, source_counters=False, outer_frame=False, corr_zero=False, small_corr=False, tid_base=None, tid_desc=False, post_launch=False, exotic_launch=False, multi_process=False, graph_launch=False, p_zero_launch=0.0, nested_driver=False, p_annotation=0.15,
+    p_leaf_children=(0, 3), ops_pool=None, p_unlaunched=0.0, sync_straddle=False, source_counters=False, outer_frame=False, corr_zero=False, small_corr=False, tid_base=None, tid_desc=False, post_launch=False, exotic_launch=False, multi_process=False, graph_launch=False, p_zero_launch=0.0, nested_driver=False, p_annotation=0.15, main_autograd_op=False,
 )
 
 
@@ -315,6 +315,9 @@ class Sim:
             th["t"] += self.r.choice([0, 1])
             for _ in range(self.r.randint(*p["ops_per_step"])):
                 yield from self.op(th, 0, self.ops_pool)
+            if p["main_autograd_op"] and self.r.random() < 0.6:
+                # the main thread itself runs an autograd function now and then (e.g. a checkpointed block recomputed in forward)
+                yield from self.op(th, 0, BWD[:1])
             if p["autograd"] and self.r.random() < 0.85:
                 bts = th["t"]
                 b = self.X("user_annotation", "## backward ##" if p["bwd_annotation"] else "loss.backward", th.get("pid", self.host_pid), th["tid"], bts, 0, {})
@@ -569,3 +572,39 @@ def add_gpu_annotation_pairs(rnd: random.Random, trace: Dict[str, Any], p: float
                        "args": {"External id": 900000 + n}})
             n += 1
     return n
+
+
+def twin_thread(trace: Dict[str, Any], tid_offset: int = 50, stream_offset: int = 100, corr_offset: int = 10 ** 6) -> None:
+    """Append a copy of the main host thread - same operators, same timestamps - as a second thread of the same process, with
+    its own correlation ids and its own streams (two workers doing the same work in lockstep)."""
+    import copy
+
+    ev = trace["traceEvents"]
+    first = ev[0]
+    main = (first.get("pid"), first.get("tid"))
+    corrs = set()
+    add = []
+    for e in ev:
+        if e.get("ph") == "X" and (e.get("pid"), e.get("tid")) == main and e.get("cat") in ("cpu_op", "user_annotation", "cuda_runtime", "cuda_driver", "python_function") \
+                and not str(e.get("name")).startswith("ProfilerStep"):          # the profiler's step annotations stay on one thread
+            c = copy.deepcopy(e)
+            c["tid"] = e["tid"] + tid_offset
+            a = c.get("args") if isinstance(c.get("args"), dict) else {}
+            if "correlation" in a:
+                corrs.add(a["correlation"])
+                a["correlation"] += corr_offset
+            if "External id" in a:
+                a["External id"] += corr_offset
+            add.append(c)
+    for e in ev:
+        a = e.get("args") if isinstance(e.get("args"), dict) else {}
+        if e.get("ph") == "X" and e.get("cat") in ("kernel", "gpu_memcpy", "gpu_memset", "cuda_sync") and a.get("correlation") in corrs:
+            c = copy.deepcopy(e)
+            c["args"]["correlation"] += corr_offset
+            if "External id" in c["args"]:
+                c["args"]["External id"] += corr_offset
+            if isinstance(c["args"].get("stream"), int) and c["args"]["stream"] > 0:
+                c["args"]["stream"] += stream_offset
+                c["tid"] = c["args"]["stream"]
+            add.append(c)
+    ev.extend(add)
